@@ -49,7 +49,11 @@
 (*          valid seal with one bit flipped                                *)
 (*   layout digest items of the header:                                    *)
 (*          "pre-seal" <<pre-digest, seal>>, "pre-x-seal" <<pre-digest,    *)
-(*          other item, seal>>, "only-pre" <<pre-digest>>, "no-seal"       *)
+(*          other item, seal>>, "pre-s-seal" <<pre-digest, ANOTHER seal    *)
+(*          item, seal>> (only the LAST item is "the seal"; the signature  *)
+(*          must cover everything before it, a stray seal item included;   *)
+(*          for this layout "otherheader" is the header without the stray  *)
+(*          seal item), "only-pre" <<pre-digest>>, "no-seal"       *)
 (*          <<pre-digest, other item>> (last item is no seal), "no-pre"    *)
 (*          <<other item, seal>>, "only-seal" <<seal>>, "bad-pre" the      *)
 (*          pre-runtime digest does not decode as a BABE claim.            *)
@@ -71,7 +75,7 @@ Kinds   == {"primary", "plain", "vrf"}
 IdxCl   == {"assigned", "other", "out"}
 VrfCl   == {"ok", "otherkey", "otherslot", "badproof", "badoutput"}
 SealCl  == {"ok", "otherkey", "otherheader", "mangled"}
-Layouts == {"pre-seal", "pre-x-seal", "only-pre", "no-seal", "no-pre", "only-seal", "bad-pre"}
+Layouts == {"pre-seal", "pre-x-seal", "pre-s-seal", "only-pre", "no-seal", "no-pre", "only-seal", "bad-pre"}
 
 (* well-formed cases: attributes that have no meaning are fixed.           *)
 WellFormed(c) ==
@@ -107,8 +111,8 @@ Authorised(c) == IndexValid(c) /\ (PrimaryRight(c) \/ SecondaryRight(c))
 
 (* (S5) seal by that authority over the header without the seal; there     *)
 (* must be a claim to read and a seal to check                             *)
-HasClaim(c) == c.layout \in {"pre-seal", "pre-x-seal", "only-pre", "no-seal"}
-HasSeal(c)  == c.layout \in {"pre-seal", "pre-x-seal", "no-pre", "only-seal", "bad-pre"}
+HasClaim(c) == c.layout \in {"pre-seal", "pre-x-seal", "pre-s-seal", "only-pre", "no-seal"}
+HasSeal(c)  == c.layout \in {"pre-seal", "pre-x-seal", "pre-s-seal", "no-pre", "only-seal", "bad-pre"}
 Sealed(c)   == HasSeal(c) /\ c.seal = "ok"
 
 (* (S1) *)
@@ -175,7 +179,7 @@ KindMatchesConfig(c) == (Accept(c) /\ c.kind # "primary") => c.cfg = c.kind
 
 (* (S5) no block passes without the claimed authority's own seal over the  *)
 (* sealed header, whatever else is right                                   *)
-NeedsOwnSeal(c) == Accept(c) => (c.seal = "ok" /\ c.layout \in {"pre-seal", "pre-x-seal"})
+NeedsOwnSeal(c) == Accept(c) => (c.seal = "ok" /\ c.layout \in {"pre-seal", "pre-x-seal", "pre-s-seal"})
 
 (* (S2,S3) where a VRF proof is required, only the claimed authority's own *)
 (* proof over this slot's transcript is good enough                        *)
